@@ -745,7 +745,8 @@ void save_trigger_read(struct mcount_thread_data *mtdp, struct mcount_ret_stack 
 		event->id = red->id_read;
 		event->time = rstack->end_time ?: rstack->start_time;
 		event->dsize = red->size;
-		event->idx = mtdp->idx;
+		/* which pass stored it: the entry pass (0) or the exit pass (1) */
+		event->idx = diff;
 
 		if (red->save(mtdp, event->data) < 0)
 			continue;
@@ -1012,7 +1013,8 @@ static int record_ret_stack(struct mcount_thread_data *mtdp, enum uftrace_record
 			evidx = mrstack->nr_events - i - 1;
 			event = get_event_pointer(argbuf, evidx);
 
-			if (event->time != timestamp)
+			/* only what the exit pass stored (ENTRY and EXIT time can be equal) */
+			if (event->time != timestamp || !event->idx)
 				continue;
 
 			/* save read2 trigger before exit record */
@@ -1088,7 +1090,8 @@ static int record_ret_stack(struct mcount_thread_data *mtdp, enum uftrace_record
 			evidx = mrstack->nr_events - i - 1;
 			event = get_event_pointer(argbuf, evidx);
 
-			if (event->time != timestamp)
+			/* only what the entry pass stored */
+			if (event->time != timestamp || event->idx)
 				break;
 
 			/* save read trigger after entry record */
